@@ -40,6 +40,26 @@ MCCfgSet == { [df |-> FLT!Absent, ac |-> FLT!Absent],
               [df |-> FLT!List({17}), ac |-> FLT!Absent],
               [df |-> FLT!Absent, ac |-> FLT!List({4221840})],          \* 406b90
               [df |-> FLT!List({}), ac |-> FLT!List({16395, 1710618})] } \* 00400b (nobody), 1a1a1a
+(* third instance (quick tier): 2 x 2 frames *)
+MCInput3 ==
+  1 :> << [fr |-> Fr(51, <<0, 0, 0, 0, 26, 1>>, 10, PA), dec |-> TRUE],
+          [fr |-> Fr(51, <<0, 0, 0, 0, 0, 2>>, 10, PB), dec |-> TRUE] >>
+  @@
+  2 :> << [fr |-> Fr(51, <<0, 0, 0, 0, 0, 1>>, 26, PA), dec |-> TRUE],
+          [fr |-> Fr(51, <<0, 0, 0, 0, 0, 2>>, 10, PX), dec |-> FALSE] >>
+MCCuts3 == 1 :> {24} @@ 2 :> {24}
+
+(* fourth instance: a frame the filters hide, followed on its receiver by   *)
+(* two visible ones (so that the hidden record has certainly left)          *)
+MCInput4 ==
+  1 :> << [fr |-> Fr(51, <<0, 0, 0, 0, 26, 1>>, 10, PA), dec |-> TRUE] >>
+  @@
+  2 :> << [fr |-> Fr(51, <<0, 0, 0, 0, 0, 1>>, 10, PB), dec |-> TRUE],
+          [fr |-> Fr(51, <<0, 0, 0, 0, 0, 2>>, 26, PA), dec |-> TRUE],
+          [fr |-> Fr(50, <<0, 0, 0, 0, 0, 3>>, 10, PD), dec |-> TRUE],
+          [fr |-> Fr(51, <<0, 0, 0, 0, 0, 4>>, 10, PA), dec |-> TRUE] >>
+MCCuts4 == 1 :> {} @@ 2 :> {23, 47}
+
 ASSUME InputAdmissible
 
 MCCfgSetQ == { [df |-> FLT!Absent, ac |-> FLT!Absent],
